@@ -10,6 +10,7 @@ NOTE = ("Trusted: numpy's generic machinery behaves on object arrays as on float
         "Python bodies (witness concordance replays solver witnesses on the JIT code); contract stubs / UF lemma "
         "instances named in the evidence are true of the real routines; z3/cvc5. Float rounding is outside the claim.")
 CLAIMED = {
+    'C17': ('4/C17', 'symbolic execution of ArraySpectrum/ObservedSpectrum/TaurexSpectrum loading and create_binner on symbolic rows in any order (argsort forks) + z3'),
     'C20': ('4/C20', 'symbolic execution of contribute_ktau / evaluate_emission_ktables vs the cross-section paths on degenerate k-tables, Jensen clause via tangent-line lemma instances + z3/nlsat'),
     'C03': ('4/C03', 'symbolic execution of Absorption/CIA/Rayleigh prepare(_each) against cache/chemistry doubles and of model/model_contrib/model_full_contrib on a real TransmissionModel + z3/nlsat'),
     'C02': ('4/C02', 'symbolic execution of EmissionModel.evaluate_emission/path_integral/compute_final_flux, DirectImageModel and the Planck kernels (UF Planck function, leggauss contract stub) + z3/nlsat'),
